@@ -7,7 +7,7 @@ from ..harness import qcall
 
 ID = "C19"
 LEVEL = "exploration"
-BUDGET = {"quick": 640, "thorough": 250000}
+BUDGET = {"quick": 1920, "thorough": 250000}
 TECHNIQUE = "property-based testing: constructed interior cell centres, stored value from the generator's payload as the oracle"
 RULE = ("Hypothesis-generated nested 3D plotfiles (non-zero origin incl. a quarter placed 1e3-3e5 domain lengths away, anisotropic cells, 1-3 levels, any layout, finite "
         "random payload |v| <= 1e3) x ~10 query points per plotfile constructed as centres of cells that belong to the "
@@ -20,7 +20,7 @@ ASSUMPTIONS = ["cubic-spline evaluation at an integer node reproduces the node v
 
 @st.composite
 def cases(draw, tier="quick"):
-    spec = draw(plotgen.plot_specs(ndims=3, max_cells=2500 if tier == "quick" else 8000, min_fields=1, max_fields=4,
+    spec = draw(plotgen.plot_specs(thin=True, ndims=3, max_cells=2500 if tier == "quick" else 8000, min_fields=1, max_fields=4,
                                    payload_kinds=("random",)))
     nf = len(spec["fields"])
     nlev = spec["mesh"]["nlev"]
